@@ -60,6 +60,51 @@ def font_variants():
 
         return f
 
+    def ttf_format2(keys, headers):
+        """A TrueType program whose only table is a cmap with one format 2 subtable.
+        keys: {first byte: subheader index}; headers: [(firstCode, [glyph ids...])] per subheader."""
+        import struct
+
+        shk = [0] * 256
+        for byte, idx in keys.items():
+            shk[byte] = idx * 8
+        glyphs = b""
+        hdr = b""
+        nh = len(headers)
+        for i, (first, gids) in enumerate(headers):
+            # idRangeOffset counts from its own position to the first glyph id of this subheader
+            off = (nh - i - 1) * 8 + 2 + len(glyphs)
+            hdr += struct.pack(">HHhH", first, len(gids), 0, off)
+            glyphs += struct.pack(">%dH" % len(gids), *gids)
+        body = struct.pack(">256H", *shk) + hdr + glyphs
+        sub = struct.pack(">HHH", 2, 6 + len(body), 0) + body
+        cmap = struct.pack(">HH", 0, 1) + struct.pack(">HHL", 0, 3, 12) + sub
+        return b"\x00\x01\x00\x00" + struct.pack(">HHHH", 1, 16, 0, 0) + struct.pack(">4sLLL", b"cmap", 0, 28, len(cmap)) + cmap
+
+    def cid_ttf(keys, headers):
+        # Identity CID font without /ToUnicode: the text comes from the embedded program's cmap table
+        def f(alloc, shared):
+            prog = ttf_format2(keys, headers)
+            ff = alloc(docs.content_stream(prog, extra={b"Length1": len(prog)}))
+            fd = alloc({b"Type": Name(b"FontDescriptor"), b"FontName": Name(b"EmbTT"), b"Flags": 4, b"FontBBox": [0, -200, 1000, 800], b"ItalicAngle": 0, b"Ascent": 800, b"Descent": -200, b"CapHeight": 700, b"StemV": 80, b"FontFile2": ff})
+            d = alloc({b"Type": Name(b"Font"), b"Subtype": Name(b"CIDFontType2"), b"BaseFont": Name(b"EmbTT"), b"CIDSystemInfo": {b"Registry": Str(b"Adobe"), b"Ordering": Str(b"Identity"), b"Supplement": 0}, b"FontDescriptor": fd, b"DW": 700, b"CIDToGIDMap": Name(b"Identity")})
+            return {b"Type": Name(b"Font"), b"Subtype": Name(b"Type0"), b"BaseFont": Name(b"EmbTT"), b"Encoding": Name(b"Identity-H"), b"DescendantFonts": [d]}
+
+        return f
+
+    def type1_fontfile(glyphs):
+        # a Type 1 font without /Encoding: the encoding is read from the embedded program's header.  Both variants have
+        # the same /BaseFont and headers of the same length - only the glyph names differ
+        def f(alloc, shared):
+            head = b"%!PS-AdobeFont-1.0: Emb 001.000\n12 dict begin\n/FontName /Emb def\n/Encoding 256 array\n0 1 255 {1 index exch /.notdef put} for\n"
+            head += b"".join(b"dup %d /%s put\n" % (65 + i, g) for i, g in enumerate(glyphs)) + b"readonly def\ncurrentdict end\ncurrentfile eexec\n"
+            prog = head + bytes(range(64)) + b"\n" + b"0" * 64 + b"\ncleartomark\n"
+            ff = alloc(docs.content_stream(prog, extra={b"Length1": len(head), b"Length2": 65, b"Length3": 78}))
+            fd = alloc({b"Type": Name(b"FontDescriptor"), b"FontName": Name(b"Emb"), b"Flags": 4, b"FontBBox": [0, -200, 1000, 800], b"ItalicAngle": 0, b"Ascent": 800, b"Descent": -200, b"CapHeight": 700, b"StemV": 80, b"FontFile": ff})
+            return {b"Type": Name(b"Font"), b"Subtype": Name(b"Type1"), b"BaseFont": Name(b"Emb"), b"FirstChar": 65, b"LastChar": 70, b"Widths": [500, 520, 540, 560, 580, 600], b"FontDescriptor": fd}
+
+        return f
+
     def unknown_base(glyphs):
         # a legal base encoding the library has no table for, plus Differences
         def f(alloc, shared):
@@ -99,6 +144,10 @@ def font_variants():
         "cjk-euc-h": (cjk(b"EUC-H", b"Japan1"), "euc"),
         "cjk-rksj-h": (cjk(b"90ms-RKSJ-H", b"Japan1"), "sjis"),
         "cjk-unijis-v": (cjk(b"UniJIS-UCS2-V", b"Japan1"), 2),
+        "type1-fontfile-A": (type1_fontfile([b"alpha", b"gamma", b"theta", b"sigma", b"kappa", b"omega"]), 1),
+        "type1-fontfile-B": (type1_fontfile([b"omega", b"delta", b"Theta", b"Sigma", b"lambda"[:5], b"alpha"]), 1),
+        "cid-truetype-cmap2-A": (cid_ttf({0x41: 1}, [(0x20, [9, 8]), (0x42, [1, 2, 3, 4])]), 2),
+        "cid-truetype-cmap2-B": (cid_ttf({0x43: 2}, [(0x20, [9, 8]), (0x42, [1, 2, 3, 4]), (0x44, [0x41, 0x42, 0x43, 0x44])]), 2),
         "cjk-rksj-h-as-stream-wmode1": (cjk_stream(b"90ms-RKSJ-H", b"Japan1", 1), "sjis"),
         "cjk-unijis-v-as-stream-wmode0": (cjk_stream(b"UniJIS-UCS2-V", b"Japan1", 0), 2),
     }
@@ -112,7 +161,7 @@ def text_for(t, bpc):
     if bpc == 1:
         return bytes(t.pick(b"ABCDEF AB", "txt.ch") for _ in range(n))
     if bpc == 2:
-        return b"".join(t.pick([0x41, 0x42, 0x43, 0x44, 0x45, 0x3042, 0x30A2, 0x4E00], "txt.cid").to_bytes(2, "big") for _ in range(n))
+        return b"".join(t.pick([0x41, 0x42, 0x43, 0x44, 0x45, 0x3042, 0x30A2, 0x4E00, 1, 2, 3, 4], "txt.cid").to_bytes(2, "big") for _ in range(n))
     if bpc == "euc":
         return b"".join(t.pick([b"\xa4\xa2", b"\xa5\xa2", b"\xb0\xa1", b"A", b"\x8e\xb1"], "txt.euc") for _ in range(n))
     return b"".join(t.pick([b"\x82\xa0", b"\x83\x41", b"\x88\x9f", b"A", b"\xb1"], "txt.sjis") for _ in range(n))
